@@ -654,6 +654,7 @@ def generic_pair(ps):
 
 
 QUICK_THREAD_GROUPS = ("SO3Quat", "SO3Mrp", "SO3EulerB321", "SE3Quat", "SE23Mrp", "SE23Quat", "SE2")
+THOROUGH_THREAD_GROUPS = ("SO3Dcm", "SE3Mrp", "SO2", "SE2*SE2", "SO3Quat*SO3Quat", "R3*SO3Mrp*R3")
 
 
 def check_threads(res, B, elems, xs, case, sub, ops_wanted, bound=1, max_runs=1500, only_pairs=None):
@@ -662,7 +663,7 @@ def check_threads(res, B, elems, xs, case, sub, ops_wanted, bound=1, max_runs=15
     different elements, and each operation against `exp` / `to_Matrix` of the other element."""
     from . import threads
     G, A = B.G, B.G.algebra
-    if case.get("tier") != "thorough" and B.name not in QUICK_THREAD_GROUPS:
+    if B.name not in QUICK_THREAD_GROUPS + (THOROUGH_THREAD_GROUPS if case.get("tier") == "thorough" else ()):
         return
     ops = {k: v for k, v in group_ops(B).items() if k in ops_wanted}
     if not ops:
